@@ -389,6 +389,34 @@ func init() {
 				rg.compareWithModel(form("do", fd, fc), nil, r, false)
 			},
 		}
+		// one macro call form evaluated twice (the body of a function called twice): every evaluation
+		// expands anew, so the expander's effect and the expansion's effects happen twice
+		tW := func() int {
+			if tier == "thorough" {
+				return 4
+			}
+			return 3
+		}
+		twice := &vf.Family{
+			Name:   "macro-call-sites-evaluated-twice",
+			Bounds: "(do (defmacro mac (fn [p & r] (t! 7) `CT)) (def f (fn [] (mac a..))) (list (f) (f))) for every code template CT of weight <=3 (quick) / <=4 (thorough) and every operand tuple of length 1-2, read from text (every form has a source position): result and ordered effects against the definitional interpreter, which expands at every evaluation",
+			Setup:  setup,
+			N:      func(t string) int64 { tier = t; return cgOf().Count(0, tW()) * int64(len(c12Args(2))) },
+			Describe: func(i int64) string {
+				na := int64(len(c12Args(2)))
+				return form("quasiquote", cgOf().Unrank(0, i/na)).Lisp() + " applied to " + model.List(c12Args(2)[i%na]...).Lisp() + ", call form evaluated twice"
+			},
+			Run: func(i int64, r *vf.Rec) {
+				as := c12Args(2)
+				na := int64(len(as))
+				body := form("quasiquote", cgOf().Unrank(0, i/na))
+				params := model.Vec(sym("p"), sym("&"), sym("r"))
+				defs := form("defmacro", sym("mac"), form("fn", params, form("t!", model.Int(7)), body))
+				call := model.List(append([]V{sym("mac")}, as[i%na]...)...)
+				prog := form("do", defs, form("def", sym("f"), form("fn", model.Vec(), call)), form("list", model.List(sym("f")), model.List(sym("f"))))
+				rg.compareWithModel(prog, nil, r, true)
+			},
+		}
 		// hand-built families: recursive macros, macros expanding to macros, library macros
 		type fixed struct{ defs, call string }
 		fixedCases := []fixed{
@@ -422,7 +450,7 @@ func init() {
 			ID: "C12", Level: "model_checking",
 			Rule: "every quasiquote template of the bounded grammar is compared with a substitution computed on the model ADT (and with eval of quasiquoteexpand); every macro built from a bounded code template x every operand tuple is compared with the definitional interpreter, with evaluation of its own macroexpand result (head no longer a macro), and with the same body as an ordinary function; non-trivial = has effects",
 			Assumptions: []string{"unquote/splice-unquote with a wrong operand count are malformed (C04's domain) and skipped", "splicing a non-sequence is unspecified and skipped"},
-			Families: []*vf.Family{qq, pairs, mac, fx},
+			Families: []*vf.Family{qq, pairs, mac, twice, fx},
 		}
 	})
 }
